@@ -3,8 +3,8 @@ C12 — no query batch can make the application panic, abort or run without boun
 
 Model: the batch pipeline of `Model/Batch.lean` in its `…O` form: every place where the Rust code can do
 something a total function cannot — `par_chunks(0)`, `value[key] = …` on a non-object, `bin_totals[i]` /
-`assignments[i]` out of bounds, `MultiSet` on an empty or missing axis (C17) — is an explicit `panic` /
-`diverges` outcome.  "No panic" is therefore a theorem about the guards, not an artefact of totalisation.
+`assignments[i]` out of bounds (and, until /repo ae1b946 made `MultiSet` total, its behaviour on an empty or
+missing axis, C17) — is an explicit `panic` / `diverges` outcome.  "No panic" is therefore a theorem about the guards, not an artefact of totalisation.
 Tie to the code: `harness/src/c06.rs`, profile C12 — structurally mutated batches under every plugin
 configuration, each run in a forked child with an alarm and an address-space limit.
 
